@@ -164,6 +164,23 @@ func (s *Source) Bytes(n int, label string) []byte {
 	return b
 }
 
+// IsReplay reports whether the source replays a recorded trace.
+func (s *Source) IsReplay() bool { return s.replayOn }
+
+// Input returns the trace being replayed (nil for a PRNG source).
+func (s *Source) Input() []int { return s.replay }
+
+// Adopt makes the source look as if it had drawn the given decisions: used
+// when the run itself happened in a child process that reported them.
+func (s *Source) Adopt(trace []int) {
+	s.trace = append([]int{}, trace...)
+	s.ndraws = len(trace)
+	s.hash = 0
+	for _, v := range trace {
+		s.hash = (s.hash ^ uint64(v+1)) * 0x100000001b3
+	}
+}
+
 // Trace returns the decisions drawn so far.
 func (s *Source) Trace() []int { return s.trace }
 
